@@ -8,6 +8,7 @@ mod dprig;
 mod engine;
 mod props;
 mod refcodec;
+mod w2;
 mod w4;
 
 use engine::Tier;
@@ -29,6 +30,7 @@ fn main() {
             "C16" => props::c16::replay(&v),
             "C17" => props::c17::replay(&v),
             "C03" | "C04" | "C07" | "C08" | "C14" => props::w4props::replay(&v),
+            "C05" | "C11" => props::w2props::replay(&v),
             _ => eprintln!("no replay for {prop}"),
         }
         return;
@@ -57,6 +59,8 @@ fn main() {
         "C07" => props::w4props::run_c07(tier),
         "C08" => props::w4props::run_c08(tier),
         "C14" => props::w4props::run_c14(tier),
+        "C05" => props::w2props::run_c05(tier),
+        "C11" => props::w2props::run_c11(tier),
         _ => {
             eprintln!("unknown property {prop}");
             std::process::exit(2)
